@@ -119,6 +119,18 @@ Definition guard_unreserve (s0 : pset) (k : N) (o : op) : bool :=
   | _ => false
   end.
 
+(* which errors a handler can return: nil; disconnect also ErrDisconnectReceivedForNonConnectedPeer;
+   removeReservedPeers / setReservedPeer also ErrPeerDoesNotExist (removeNoSlotNode of a reserved peer
+   whose node updateTime has forgotten).  ErrPeerDisconnected, ErrOutgoingSlotsUnavailable and
+   ErrIncomingSlotsUnavailable never leave a handler. *)
+Definition err_class_ok (o : op) (e : option err) : bool :=
+  match e with
+  | None => true
+  | Some ErrDisconnectNonConnected => match o with ODisconnect _ _ => true | _ => false end
+  | Some ErrPeerDoesNotExist => match o with ORemoveReserved _ | OSetReserved _ => true | _ => false end
+  | Some _ => false
+  end.
+
 (* membership of an observed result among the model's possible results *)
 Definition node_eqb (a b : node) : bool :=
   mstate_eqb (n_st a) (n_st b) && (n_rep a =? n_rep b) && Bool.eqb (n_old a) (n_old b).
